@@ -314,7 +314,13 @@ class _CommonVisitors(visitor.NodeVisitor):
         typing.typecheck(substr, ast.String, "substring")
 
         identifier = self.visit(field)
-        substring = self.visit(substr)
         op = getattr(identifier, func)
 
+        if isinstance(substr, ast.String) and any(
+            char in substr.val for char in ("%", "_", "/")
+        ):
+            # LIKE wildcards in a literal should be matched literally:
+            return op(substr.val, autoescape=True)
+
+        substring = self.visit(substr)
         return op(substring)
